@@ -4,7 +4,7 @@
 
 use crate::bridge::*;
 use bytes::BytesMut;
-use desert::{BinaryInput, BinaryOutput, DeserializationContext, SerializationContext, SizeCalculator};
+use desert::{BinaryDeserializer, BinaryInput, BinaryOutput, BinarySerializer, DeserializationContext, SerializationContext, SizeCalculator};
 use model::ty::*;
 use std::collections::{BTreeMap, BTreeSet, HashMap, HashSet, LinkedList};
 use std::rc::Rc;
@@ -23,6 +23,8 @@ pub struct AllSinks {
     pub recording: Vec<u8>,
     pub recording_calls: usize,
     pub paged: Vec<u8>,
+    /// sinks whose call returned an error (all or none, if the sinks agree)
+    pub failed: Vec<&'static str>,
 }
 
 #[derive(Clone)]
@@ -45,6 +47,9 @@ pub struct Entry {
 impl AllSinks {
     /// first disagreement between the sinks, if any
     pub fn disagreement(&self) -> Option<String> {
+        if !self.failed.is_empty() {
+            return Some(format!("the value could be written to some outputs but not to {:?}", self.failed));
+        }
         let all = [
             ("BytesMut", &self.bytes_mut),
             ("serialize_to_bytes", &self.to_bytes),
@@ -131,23 +136,50 @@ fn encode_all<T: Bridge>(v: &Val) -> desert::Result<AllSinks> {
 }
 
 fn all_sinks<T: Bridge>(x: &T) -> desert::Result<AllSinks> {
-    let vec = desert::serialize(x, Vec::new())?;
-    let bytes_mut = desert::serialize(x, BytesMut::new())?.to_vec();
-    let to_bytes = desert::serialize_to_bytes(x)?.to_vec();
-    let to_byte_vec = desert::serialize_to_byte_vec(x)?;
-    let size_calc = desert::serialize(x, SizeCalculator::new())?.size();
-    let rec = desert::serialize(x, RecordingSink::default())?;
-    let paged = desert::serialize(x, PagedSink::new(7))?.contents();
-    Ok(AllSinks {
-        vec,
-        bytes_mut,
-        to_bytes,
-        to_byte_vec,
-        size_calc,
-        recording: rec.data,
-        recording_calls: rec.calls,
-        paged,
-    })
+    // every sink is called, also after another one has failed: a failed call must not leak into
+    // the next one
+    let mut failed = Vec::new();
+    let mut first_err = None;
+    let mut note = |name: &'static str, e: desert::Error| {
+        failed.push(name);
+        if first_err.is_none() {
+            first_err = Some(e);
+        }
+    };
+    let vec = desert::serialize(x, Vec::new()).unwrap_or_else(|e| {
+        note("Vec<u8>", e);
+        vec![]
+    });
+    let bytes_mut = desert::serialize(x, BytesMut::new()).map(|b| b.to_vec()).unwrap_or_else(|e| {
+        note("BytesMut", e);
+        vec![]
+    });
+    let to_bytes = desert::serialize_to_bytes(x).map(|b| b.to_vec()).unwrap_or_else(|e| {
+        note("serialize_to_bytes", e);
+        vec![]
+    });
+    let to_byte_vec = desert::serialize_to_byte_vec(x).unwrap_or_else(|e| {
+        note("serialize_to_byte_vec", e);
+        vec![]
+    });
+    let size_calc = desert::serialize(x, SizeCalculator::new()).map(|s| s.size()).unwrap_or_else(|e| {
+        note("SizeCalculator", e);
+        0
+    });
+    let (recording, recording_calls) = desert::serialize(x, RecordingSink::default())
+        .map(|r| (r.data, r.calls))
+        .unwrap_or_else(|e| {
+            note("custom recording output", e);
+            (vec![], 0)
+        });
+    let paged = desert::serialize(x, PagedSink::new(7)).map(|p| p.contents()).unwrap_or_else(|e| {
+        note("custom paged output", e);
+        vec![]
+    });
+    if failed.len() == 7 {
+        return Err(first_err.unwrap());
+    }
+    Ok(AllSinks { vec, bytes_mut, to_bytes, to_byte_vec, size_calc, recording, recording_calls, paged, failed })
 }
 
 fn decode_in<T: Bridge>(ctx: &mut DeserializationContext<'_>) -> desert::Result<Val> {
@@ -231,6 +263,7 @@ impl Bridge for Point {
     fn register(reg: &mut Registry) {
         reg.insert(AdtDef::Record(RecordDef {
             name: "Point".into(),
+            option_aware: true,
             steps: vec![Step::Added("x".into()), Step::Removed("z".into())],
             fields: vec![
                 FieldDef { name: "x".into(), ty: Ty::I32, transient: None, default: Some(Val::I(0)) },
@@ -263,7 +296,7 @@ impl Bridge for Choices {
         let ctor = |name: &str, fields: Vec<FieldDef>| CtorDef {
             name: name.into(),
             transient: false,
-            record: RecordDef { name: name.into(), steps: vec![], fields },
+            record: RecordDef { name: name.into(), option_aware: true, steps: vec![], fields },
         };
         reg.insert(AdtDef::Enum(EnumDef {
             name: "Choices".into(),
@@ -308,6 +341,7 @@ impl Bridge for Node {
         }
         reg.insert(AdtDef::Record(RecordDef {
             name: "Node".into(),
+            option_aware: true,
             steps: vec![],
             fields: vec![
                 field("v", Ty::U32),
@@ -341,6 +375,7 @@ impl Bridge for Tree {
         }
         reg.insert(AdtDef::Record(RecordDef {
             name: "Tree".into(),
+            option_aware: true,
             steps: vec![Step::Added("kids".into())],
             fields: vec![
                 field("label", Ty::Str),
@@ -384,7 +419,7 @@ impl Bridge for Shape {
         let ctor = |name: &str, transient: bool, steps: Vec<Step>, fields: Vec<FieldDef>| CtorDef {
             name: name.into(),
             transient,
-            record: RecordDef { name: name.into(), steps, fields },
+            record: RecordDef { name: name.into(), option_aware: true, steps, fields },
         };
         reg.insert(AdtDef::Enum(EnumDef {
             name: "Shape".into(),
@@ -442,6 +477,7 @@ impl Bridge for Outer {
         Point::register(reg);
         reg.insert(AdtDef::Record(RecordDef {
             name: "Outer".into(),
+            option_aware: true,
             steps: vec![Step::Added("extra".into()), Step::Added("pt".into()), Step::MadeOptional("n".into())],
             fields: vec![
                 field("id", Ty::U32),
@@ -492,6 +528,7 @@ impl Bridge for Names {
     fn register(reg: &mut Registry) {
         reg.insert(AdtDef::Record(RecordDef {
             name: "Names".into(),
+            option_aware: true,
             steps: vec![],
             fields: vec![field("a", Ty::DedupStr), field("b", Ty::DedupStr), field("c", Ty::vec(Ty::DedupStr))],
         }));
@@ -502,6 +539,101 @@ impl Bridge for Names {
     fn from_val(v: &Val) -> Self {
         let f = v.items();
         Names { a: Bridge::from_val(&f[0]), b: Bridge::from_val(&f[1]), c: Bridge::from_val(&f[2]) }
+    }
+}
+
+/// a client-defined codec that fails *after* having written its payload when `fail` is set
+/// (successful encodings are those of the derived twin `FragileWire`)
+pub struct Fragile {
+    pub text: String,
+    pub fail: bool,
+}
+#[derive(BinaryCodec)]
+pub struct FragileWire {
+    pub text: String,
+    pub fail: bool,
+}
+impl desert::BinarySerializer for Fragile {
+    fn serialize<O: BinaryOutput>(&self, context: &mut SerializationContext<O>) -> desert::Result<()> {
+        FragileWire { text: self.text.clone(), fail: self.fail }.serialize(context)?;
+        if self.fail {
+            Err(desert::Error::LengthTooLarge)
+        } else {
+            Ok(())
+        }
+    }
+}
+impl desert::BinaryDeserializer for Fragile {
+    fn deserialize(context: &mut DeserializationContext<'_>) -> desert::Result<Self> {
+        let w = FragileWire::deserialize(context)?;
+        Ok(Fragile { text: w.text, fail: w.fail })
+    }
+}
+impl Bridge for Fragile {
+    fn ty() -> Ty {
+        Ty::Adt("Fragile".into())
+    }
+    fn register(reg: &mut Registry) {
+        reg.insert(AdtDef::Record(RecordDef {
+            name: "Fragile".into(),
+            option_aware: true,
+            steps: vec![],
+            fields: vec![field("text", Ty::Str), field("fail", Ty::Bool)],
+        }));
+    }
+    fn to_val(&self) -> Val {
+        Val::Record(vec![self.text.to_val(), self.fail.to_val()])
+    }
+    fn from_val(v: &Val) -> Self {
+        let f = v.items();
+        Fragile { text: Bridge::from_val(&f[0]), fail: Bridge::from_val(&f[1]) }
+    }
+}
+
+/// an evolved record with a fragile field in a later chunk: when it fails, earlier chunks have
+/// already been written into their buffers
+#[derive(BinaryCodec)]
+#[evolution(FieldAdded("f", Fragile { text: String::new(), fail: false }), FieldAdded("z", 0u8))]
+pub struct Brittle {
+    pub a: u32,
+    pub f: Fragile,
+    pub s: String,
+    pub z: u8,
+}
+impl Bridge for Brittle {
+    fn ty() -> Ty {
+        Ty::Adt("Brittle".into())
+    }
+    fn register(reg: &mut Registry) {
+        Fragile::register(reg);
+        reg.insert(AdtDef::Record(RecordDef {
+            name: "Brittle".into(),
+            option_aware: true,
+            steps: vec![Step::Added("f".into()), Step::Added("z".into())],
+            fields: vec![
+                field("a", Ty::U32),
+                FieldDef {
+                    name: "f".into(),
+                    ty: Fragile::ty(),
+                    transient: None,
+                    default: Some(Val::Record(vec![Val::str(""), Val::Bool(false)])),
+                },
+                field("s", Ty::Str),
+                FieldDef { name: "z".into(), ty: Ty::U8, transient: None, default: Some(Val::U(0)) },
+            ],
+        }));
+    }
+    fn to_val(&self) -> Val {
+        Val::Record(vec![self.a.to_val(), self.f.to_val(), self.s.to_val(), self.z.to_val()])
+    }
+    fn from_val(v: &Val) -> Self {
+        let f = v.items();
+        Brittle {
+            a: Bridge::from_val(&f[0]),
+            f: Bridge::from_val(&f[1]),
+            s: Bridge::from_val(&f[2]),
+            z: Bridge::from_val(&f[3]),
+        }
     }
 }
 
@@ -555,6 +687,9 @@ pub fn builtin_catalog() -> Catalog {
         Result<Duration, BigDecimal>, Vec<(Uuid, Dt<Utc>)>, Dedup, Vec<Dedup>, (Dedup, String, Dedup),
         Point, Choices, Node, Tree, Shape, Outer, Names, Vec<Point>, Option<Choices>, (Outer, u8),
         Vec<Shape>, BTreeMap<u8, Tree>, Vec<Outer>, (Point, Point),
+        Streamed<u16>, Streamed<String>, Streamed<(u8, String)>, (Streamed<i64>, u8), Vec<Streamed<u32>>,
+        Streamed<Point>, Vec<i8>, [i8; 3], LinkedList<i8>, Vec<u32>, BTreeSet<i8>,
+        Fragile, (String, Fragile), Vec<Fragile>, Brittle, Vec<Brittle>, (Brittle, Point),
     ];
     for e in entries.iter_mut() {
         if matches!(e.name, "Node" | "Tree" | "BTreeMap<u8, Tree>") {
